@@ -197,6 +197,17 @@ func (p *c10) build(levels int, kinds [][]int, layout int, nameForm int, flag bo
 				body = append(body, mt.Block{Name: n, Body: b}, mt.T(" "))
 			}
 		}
+		if (lv*3+layout+levels+nameForm)%4 == 0 {
+			// the extends tag need not be the first thing in a template: one of this level's top-level blocks is written
+			// before it
+			for bi := 1; bi < len(body); bi++ {
+				if blk, ok := body[bi].(mt.Block); ok {
+					rest := append(append([]mt.Stmt{}, body[:bi]...), body[bi+1:]...)
+					body = append([]mt.Stmt{blk}, rest...)
+					break
+				}
+			}
+		}
 		set.Add(fmt.Sprintf("t%d", lv), body)
 	}
 	ctx := map[string]mt.Val{"v": "VAL", "xs": []mt.Val{int64(1), int64(2)}, "rows": []mt.Val{int64(7), int64(8)}, "flag": flag,
